@@ -595,7 +595,42 @@ def r8(ctx):
         raise AnalysisBroken('C16.R8: no lookup with a user level list found in MainLoop::run')
 
 
+def r11(ctx):
+    ctx.rule('C16.R11', 'the access level of a legacy "circuit#level" default survives the insertion of the circuit suffix: where '
+             'MessageMap::addDefaultFromFile rebuilds the value around the position of the marker "#", the head ends and the '
+             'tail starts exactly at that position (substr(0, pos) ... substr(pos)), so that "#level" is kept for the parser '
+             'of the level; a lost marker loads the messages without access level', minimum=1)
+    fb = ctx.fb
+    fn = fb.fn('ebusd::MessageMap::addDefaultFromFile')
+    ctx.touch(fn)
+    n = 0
+    for nid, d, rhs, op, lhs in fn.assignments():
+        if rhs is None or not d:
+            continue
+        r = fn.nodes[fn.strip(rhs, casts=True)]
+        if r.get('k') != 'CXXMemberCallExpr' or (r.get('callee') or '').split('::')[-1] not in ('find', 'find_first_of') or \
+                not r.get('args') or fn.val(r['args'][0]) != 35:
+            continue
+        pos = d.split(':')[-1]
+        sk = fn.key(r['obj'])
+        for x in fn.all('CXXMemberCallExpr'):
+            v = fn.nodes[x]
+            if (v.get('callee') or '').split('::')[-1] != 'substr' or fn.key(v.get('obj', -1)) != sk:
+                continue
+            args = [fn.key(a) for a in v.get('args', []) if 'CXXDefaultArgExpr' not in fn.key(a)]
+            if not any(pos in a for a in args):
+                continue
+            n += 1
+            if len(args) == 2 and args[1] == '#18446744073709551615':
+                args = args[:1]     # the default count npos
+            ok = args in (['#0', pos], [pos])
+            ctx.ob('C16.R11', fn, x, ok, 'piece of the circuit value around "#"', '%s.substr(%s)' % (sk, ', '.join(args)))
+    if n < 1:
+        raise AnalysisBroken('C16.R11: rebuilding of the circuit value around "#" not found in addDefaultFromFile')
+
+
 def run(ctx):
+    r11(ctx)
     r8(ctx)
     r1(ctx)
     r2(ctx)
@@ -607,3 +642,5 @@ def run(ctx):
     import rules.common as _common
     ctx.rule('C16.R9', 'arguments keep their roles across calls: at every call of a repository function in the client and sink sources (circuit, name, level list and user keep their slots on the way to the lookup) whose arguments are named like parameters of the callee, no two of them are passed crosswise (argument i named like parameter j and argument j like parameter i)', minimum=12)
     _common.swapped_args_rule(ctx, 'C16.R9', ('src/ebusd/mainloop', 'src/ebusd/main.', 'src/ebusd/datahandler', 'src/ebusd/mqtt', 'src/ebusd/knx'), 12)
+    import rules.C19 as _c19
+    _c19.multiline_rule(ctx, 'C16.R10')
